@@ -335,6 +335,22 @@ pub fn gen_c07(ctx: &Ctx, rng: &mut Rng, out: &mut Vec<String>) {
         let p = if i % 3 == 0 { rng.range(0, 17) } else { *rng.pick(&[0u64, 1, 2, 6, 6, 15, 17]) };
         out.push(format!("io.textrt\t{}\t{}\t{}", nats(&shape), bits(&data), p));
     }
+    // shapes whose npy header is exactly a multiple of 64 bytes before padding (and its neighbours), and spectra with more than
+    // 8192 values (not a multiple of 8192): written, read back, and through the binary to a pipe and a file
+    let mut special: Vec<Vec<usize>> = Vec::new();
+    for last in [1usize, 10, 100] { for d in [20usize, 21, 22] { let mut sh = vec![1; d - 1]; sh.push(last); special.push(sh); } }
+    special.push(vec![2, 2, 2, 2, 2, 2, 2, 2, 2, 2, 1, 1, 1, 1, 1, 1, 1, 1, 1, 1, 10]);
+    for sh in [vec![101usize, 101], vec![21, 21, 21], vec![8193], vec![8192], vec![16385]] { special.push(sh); }
+    for (i, sh) in special.iter().enumerate() {
+        let n: usize = sh.iter().product();
+        let data: Vec<f64> = (0..n).map(|j| ((j * 7 + i) % 1013) as f64 + 0.25).collect();
+        out.push(format!("io.npyrt\t{}\t{}", nats(sh), bits(&data)));
+        if t || i % 2 == 0 || n > 8192 {
+            for (transport, cmd2, args2) in [("pipe", "view", "-O npy"), ("file", "stat", "-s sum --precision 17")] {
+                out.push(format!("io.pipe\t-O npy --precision 6\t{transport}\t{cmd2}\t{args2}\t{}\t{}", nats(sh), bits(&data)));
+            }
+        }
+    }
     // (b) std formatting / parsing, value by value
     for _ in 0..(if t { 50000 } else { 2500 }) {
         let v = value(rng);
@@ -464,6 +480,13 @@ pub fn gen_c15(ctx: &Ctx, rng: &mut Rng, out: &mut Vec<String>) {
         if t || i % 3 == 0 { out.push(format!("io.npload\t{}\t{}", nats(&s), bits(&data))); }
     }
     for s in [vec![0usize], vec![2, 0], vec![0, 3, 1], vec![1], vec![4294967296usize, 0]] { out.push(format!("io.npyrt\t{}\t-", nats(&s))); }
+    // more values than any internal block or buffer of the writer is likely to hold, in counts that are not a multiple of a power of two
+    for (i, s) in [vec![101usize, 101], vec![21, 21, 21], vec![8193], vec![8192], vec![16385], vec![3, 4099]].into_iter().enumerate() {
+        let n: usize = s.iter().product();
+        let data: Vec<f64> = (0..n).map(|j| ((j * 13 + i) % 997) as f64 - 3.5).collect();
+        out.push(format!("io.npyrt\t{}\t{}", nats(&s), bits(&data)));
+        if i % 2 == 0 || t { out.push(format!("io.npload\t{}\t{}", nats(&s), bits(&data))); }
+    }
     for _ in 0..(if t { 400 } else { 40 }) {
         let (shape, data) = spec(rng, 6, 5, 300);
         out.push(format!("io.npyrt\t{}\t{}", nats(&shape), bits(&data)));
@@ -699,6 +722,11 @@ pub fn gen_c18(ctx: &Ctx, rng: &mut Rng, out: &mut Vec<String>) {
             }
             for first in [4096usize, 8192, 65535, 65536, 65537] { out.push(format!("{base}\t{first}\tN")); }
             out.push(format!("{base}\t{}\tN", nats(&vec![1; 3000])));
+            // the real binary reading a named pipe given as the input path (not the stdin route, not the hook): first write of 1 / 2 / 3 / 19 / 27 bytes
+            for first in [1usize, 2, 3, 19, 27] {
+                if !t && (first + ci) % 2 == 1 { continue; }
+                out.push(format!("c12.cli\t{container}\tfifo{first}\t4\t{layout}\t{}\t{colss}\t{sl}\t{proj}\t0\t{}\t{recs_s}", ci % 2, if proj == "N" { "-" } else { "6" }));
+            }
             // failures (per-mille offsets of the container)
             for pm in (0..=1000).step_by(if t { 10 } else { 50 }) { out.push(format!("{base}\t{}\t{pm}", nats(&sched(g.rng, 50)))); }
         }
